@@ -130,6 +130,9 @@ func pVal(b *pt) *pt {
 		return b.args[0]
 	case "lit":
 		v, _ := new(big.Int).SetString("0"+b.s, 16)
+		if t := symbolise(v); t != nil {
+			return t
+		}
 		return &pt{op: "c", n: v}
 	case "zeros":
 		return pC(0)
@@ -921,4 +924,36 @@ func intTighten(l *Lin) *Lin {
 	}
 	out.C = q
 	return out
+}
+
+// protoCurve: the numeric values of the resolved curve constants. A literal that spells one of them (the modulus written out
+// as bytes, n-1 computed by hand) is the same symbol the specifications speak about.
+var protoCurve struct {
+	sync.Mutex
+	P, N *big.Int
+}
+
+func setProtoCurve(P, N *big.Int) {
+	protoCurve.Lock()
+	protoCurve.P, protoCurve.N = P, N
+	protoCurve.Unlock()
+}
+
+func symbolise(v *big.Int) *pt {
+	protoCurve.Lock()
+	P, N := protoCurve.P, protoCurve.N
+	protoCurve.Unlock()
+	if P == nil || N == nil || v.BitLen() < 200 {
+		return nil
+	}
+	for _, c := range []struct {
+		sym string
+		n   *big.Int
+	}{{"P", P}, {"N", N}} {
+		d := new(big.Int).Sub(v, c.n)
+		if d.IsInt64() && d.Int64() >= -4 && d.Int64() <= 4 {
+			return pAdd(pSym(c.sym), pC(d.Int64()))
+		}
+	}
+	return nil
 }
